@@ -3567,20 +3567,44 @@ def r5_constants(corpus: Corpus, rep: Report, tier: str):
     own1, ctx1, ne1, ve1 = _proj_version_exprs(corpus, A.v1)
     s_own, _sctx, sne, sve = _proj_version_exprs(corpus, A.s_v1)
 
-    def header_source(fi_, e_):
-        """'readline' / 'iter' (next() of the entry-line iterator) / 'list' (an element of the entry-line list)"""
+    def header_source(fi_, e_, ctx_=(), depth=0):
+        """'readline' / 'iter' (next() of the entry-line iterator) / 'list' (an element of the entry-line list):
+        where a header line comes from - followed through locals, a helper's tuple return, and a callable
+        parameter of a helper (``readline()`` with ``readline := stream.readline`` or ``lambda: next(lines, "")``)."""
+        if depth > 6:
+            return None
         d_ = e_
-        for _ in range(3):
-            if isinstance(d_, ast.Name):
-                ds = [x for x in fi_.local_nodes() if isinstance(x, ast.Assign) and any(_is_name(t_, d_.id) for t_ in x.targets)]
-                if len(ds) != 1:
-                    return None
-                d_ = ds[0].value
-            else:
-                break
+        if isinstance(d_, ast.Name):
+            ds = [x for x in fi_.local_nodes() if isinstance(x, ast.Assign) and any(isinstance(n_, ast.Name) and n_.id == d_.id and isinstance(n_.ctx, ast.Store) for t_ in x.targets for n_ in ast.walk(t_))]
+            if len(ds) != 1:
+                return None
+            tg = ds[0].targets[0]
+            if isinstance(tg, (ast.Tuple, ast.List)):
+                idx = [i_ for i_, t_ in enumerate(tg.elts) if _is_name(t_, d_.id)]
+                v_ = ds[0].value
+                if len(idx) == 1 and isinstance(v_, (ast.Tuple, ast.List)) and len(v_.elts) == len(tg.elts):
+                    return header_source(fi_, v_.elts[idx[0]], ctx_, depth + 1)
+                if len(idx) == 1 and isinstance(v_, ast.Call):
+                    t2 = _callee(corpus, fi_, v_)
+                    rets = [r for r in t2.local_nodes() if isinstance(r, ast.Return)] if t2 is not None else []
+                    if len(rets) == 1 and isinstance(rets[0].value, ast.Tuple) and len(rets[0].value.elts) == len(tg.elts):
+                        return header_source(t2, rets[0].value.elts[idx[0]], ctx_ + ((fi_, v_),), depth + 1)
+                return None
+            return header_source(fi_, ds[0].value, ctx_, depth + 1)
         for x in ast.walk(d_):
             if isinstance(x, ast.Call) and isinstance(x.func, ast.Attribute) and x.func.attr == "readline":
                 return "readline"
+            if isinstance(x, ast.Call) and isinstance(x.func, ast.Name) and x.func.id in fi_.params and ctx_:
+                # a callable handed in by the caller
+                caller, call = ctx_[-1]
+                arg = _param_arg(fi_, call, x.func.id)
+                if isinstance(arg, ast.Lambda):
+                    return header_source(caller, arg.body, ctx_[:-1], depth + 1)
+                if isinstance(arg, ast.Attribute) and arg.attr == "readline":
+                    return "readline"
+                if isinstance(arg, ast.Attribute) and arg.attr == "__next__" and isinstance(arg.value, ast.Name):
+                    return header_source(caller, ast.Call(func=ast.Name(id="next", ctx=ast.Load()), args=[arg.value], keywords=[]), ctx_[:-1], depth + 1)
+                return None
             if isinstance(x, ast.Call) and isinstance(x.func, ast.Name) and x.func.id == "next" and x.args and isinstance(x.args[0], ast.Name):
                 ds = [y for y in fi_.local_nodes() if isinstance(y, ast.Assign) and any(_is_name(t_, x.args[0].id) for t_ in y.targets)]
                 if len(ds) == 1 and any(isinstance(z, ast.Call) and isinstance(z.func, ast.Attribute) and z.func.attr == "readlines" for z in ast.walk(ds[0].value)):
@@ -3590,7 +3614,7 @@ def r5_constants(corpus: Corpus, rep: Report, tier: str):
         return None
 
     for what, me_, se_ in (("project", ne1, sne), ("version", ve1, sve)):
-        ms_, ss_ = header_source(own1, me_), header_source(s_own, se_)
+        ms_, ss_ = header_source(own1, me_, ctx1), header_source(s_own, se_, _sctx)
         k = f"{A.v1.fq}|v1 {what} line boundaries"
         if ms_ is None or ss_ is None:
             raise Unsupported(f"where the v1 {what} line comes from was not understood ({ms_}, {ss_})")
@@ -3962,6 +3986,18 @@ def mutants(corpus: Corpus):
         add2("c18-v1-header-cut-at-linefeed-only-reverted", "C18.R5", [(n, f"{v1.params[0]}.readline()") for n in nx], "line boundaries")
     else:
         out.append(("c18-v1-header-cut-at-linefeed-only-reverted", "the v1 loader no longer takes its header lines with next()"))
+    # the same defect spelled through a helper that is handed the line source as a callable
+    hdr_assigns = [st_ for st_ in v1.node.body if isinstance(st_, ast.Assign) and len(st_.targets) == 1 and isinstance(st_.targets[0], ast.Name) and any(isinstance(n, ast.Call) and isinstance(n.func, ast.Name) and n.func.id == "next" for n in ast.walk(st_.value))]
+    last_top = inv.tree.body[-1]
+    if len(hdr_assigns) == 2 and v1.params:
+        a_, b_ = hdr_assigns
+        add2("c18-v1-header-via-callable-readline", "C18.R5", [
+            (a_, f"{a_.targets[0].id}, {b_.targets[0].id} = _c18_header_lines({v1.params[0]}.readline)"),
+            (b_, "pass"),
+            (last_top, ast.get_source_segment(src, last_top) + "\n\n\ndef _c18_header_lines(readline):\n    return readline().rstrip()[11:], readline().rstrip()[11:]\n"),
+        ], "line boundaries")
+    else:
+        out.append(("c18-v1-header-via-callable-readline", "the v1 loader does not bind its two header lines with next()"))
     # c9a6adf: to_sphinx joins the base url to the location
     bif = find_node(ts, lambda n: isinstance(n, ast.If) and any(isinstance(c, ast.Call) and ts.module.resolve(dotted(c.func) or "") in IDENTITY_CALLS for b_ in n.body for c in ast.walk(b_)))
     add("c18-to-sphinx-base-url-ignored-reverted", "C18.R5", bif, "pass", "location includes the base url")
